@@ -58,6 +58,19 @@ REQUIRED = {'wminkowski': 'w', 'seuclidean': 'V', 'mahalanobis': 'VI'}  # metric
 AD = 'elfi/model/elfi_model.py::AdaptiveDistance.'
 
 
+def sample_cover(hints):
+    """finitised mode only: one more vacuity probe at this normal exit, on a SAMPLE input (the hints pin the free constants, which turns the
+    nonlinear path condition into constant arithmetic).  sat with extra constraints implies sat without them, so this probe can only be harder to
+    pass than the engine's own cover; it exists because a model search over nonlinear real arithmetic has heavy-tailed run times."""
+    vc = cur()
+    if vc.fin is None:
+        return
+    saved = list(vc.pc)
+    vc.pc.extend(hints)
+    vc.oblige('cover[normal exit reachable on a sample input]', z3.BoolVal(False), expect='sat')
+    vc.pc[:] = saved
+
+
 def real(t):
     return z3.ToReal(t) if t.sort() == I else t
 
@@ -182,6 +195,13 @@ class _Ind(_LoopLemma):
     fin_range = 8
     target = '@verif/lemmas/c12_lemmas.py::lemma_induction'
 
+    def _sample(self, s):
+        return []
+
+    def ensures(self, s, result):
+        sample_cover(self._sample(s))
+        return _LoopLemma.ensures(self, s, result)
+
 
 class LemmaSumExt(_C13SumExt):
     """extensionality: pointwise equal summands give equal sums"""
@@ -207,6 +227,9 @@ class LemmaShiftLin(_Ind):
 
     loops = {0: Loop(inv=lambda s, l: [z3.And(0 <= T(l.j), T(l.j) <= s.k), s.Q(T(l.j)) == s.A1(s.n0 + T(l.j)) - s.A1(s.n0 + 0) - real(T(l.j)) * s.c])}
 
+    def _sample(self, s):
+        return [s.n0 == 1, s.k == 1, s.c == 2, s.x(0) == 1, s.x(1) == 3]
+
 
 class LemmaShiftMom(_Ind):
     """shifted second moment: sum_{i<k} (x(n0+i) - c)(x(n0+i) - d) = dA2 - (c+d) dA1 + k c d"""
@@ -228,6 +251,10 @@ class LemmaShiftMom(_Ind):
 
     loops = {0: Loop(inv=lambda s, l: [z3.And(0 <= T(l.j), T(l.j) <= s.k),
                                        s.P(T(l.j)) == (s.A2(s.n0 + T(l.j)) - s.A2(s.n0 + 0)) - (s.c + s.dd) * (s.A1(s.n0 + T(l.j)) - s.A1(s.n0 + 0)) + real(T(l.j)) * s.c * s.dd])}
+
+
+    def _sample(self, s):
+        return [s.n0 == 1, s.k == 1, s.c == 2, s.dd == 3, s.x(0) == 1, s.x(1) == 4]
 
 
 class LemmaShiftMom0(LemmaShiftMom):
@@ -252,6 +279,10 @@ class LemmaShiftMom0(LemmaShiftMom):
                                        s.P(T(l.j)) == (s.A2(T(l.j)) - s.A2(0)) - (s.c + s.dd) * (s.A1(T(l.j)) - s.A1(0)) + real(T(l.j)) * s.c * s.dd])}
 
 
+    def _sample(self, s):
+        return [s.k == 2, s.c == 2, s.dd == 3, s.x(0) == 1, s.x(1) == 4]
+
+
 class LemmaWeightedScaled(_Ind):
     """weights (1/s)^2: sum_t w_t d_t^2 = sum_t (d_t/s_t)^2"""
     label = 'weighted-scaled'
@@ -270,6 +301,9 @@ class LemmaWeightedScaled(_Ind):
                                                            prefix_inst(s.Bp, scaled_term(s.dl, s.sc), j)))]
 
     loops = {0: Loop(inv=lambda s, l: [z3.And(0 <= T(l.j), T(l.j) <= s.n), s.A(T(l.j)) == s.Bp(T(l.j))])}
+
+    def _sample(self, s):
+        return [s.n == 2, s.sc(0) == 2, s.sc(1) == 4, s.dl(0) == 1, s.dl(1) == 3]
 
 
 def stmt_welford(n, k, nk, a1, a2, s1, s2, t1, t2, c, d, q1, q2, m2o, m2n):
@@ -765,6 +799,8 @@ class AddData(Contract):
         return []
 
     def ensures(self, s, result):
+        sample_cover([s.k == 1, s.col == 0] + ([] if self.first else [s.N == 1]) + [w == 1 for w in s.widths] +
+                     [s.row(r, j) == (r + 1) * (j + 2) for r in range(2) for j in range(3)])
         st8 = s.self.state
         st = st8['store']
         n1 = s.N + s.k
@@ -816,6 +852,7 @@ class UpdateDistance(Contract):
         return [s.W >= 1, ('every column has a non-zero scale (non-constant summaries)', forall_range(0, s.W, lambda j: s.scale0.at(j) != 0, 'j'))]
 
     def ensures(self, s, result):
+        sample_cover([s.W == 1, s.scale0.at(0) == 2])
         st = s.self.state
         w, dfs = st['w'], st['distance_functions']
         k = self.k_old
@@ -892,6 +929,7 @@ class NestedDistance(Contract):
         return []
 
     def ensures(self, s, result):
+        sample_cover([s.B == 1, s.m == 1, s.i0 == 0, s.sc(0) == 2, s.u.at(0, 0) == 3, s.v.at(0, 0) == 1])
         vc = cur()
         recs = vc.libcalls.get('cdist', [])
         K = self.K
